@@ -335,7 +335,7 @@ impl Check for C13 {
         v
     }
     fn workloads(&self) -> Vec<Workload> {
-        vec![Workload { name: "cancel-twin", quick: 700, thorough: 3_000_000 }]
+        vec![Workload { name: "cancel-twin", quick: 20_000, thorough: 3_000_000 }]
     }
     fn min_nontrivial(&self, tier: Tier) -> usize {
         if tier == Tier::Quick { 300 } else { 3000 }
@@ -576,11 +576,21 @@ impl Check for C13 {
                 // sent is missing or reordered, and the connection still ends with the same DISCONNECT
                 out.count("disconnects_resumed_after_a_poll", 1);
                 let mut bad: Option<String> = None;
+                // a publish accepted between the two disconnect() calls takes room in the transmit
+                // arena: a DISCONNECT with properties, which is encoded there, may then no longer
+                // fit and the second disconnect() says so. The DISCONNECT is then legitimately absent.
+                let no_room = blog.ops.iter().any(|o| o.kind.starts_with("publish") && matches!(o.outcome, Outcome::Ok(_)) && bops.first().is_some_and(|f| o.ev_call > blog.ops[*f].ev_call))
+                    && blog.ops.iter().rev().find(|o| o.kind == "disconnect").is_some_and(|o| o.outcome == Outcome::Err(ErrRepr::BufferTooSmall));
+                if no_room {
+                    out.count("second_disconnect_refused_for_lack_of_arena_room", 1);
+                }
                 for (ci, (pa, pb)) in a_obs.packets.iter().zip(&b_obs.packets).enumerate() {
                     if bw.conns[ci].out.error.is_some() {
                         bad = Some(format!("conn {}: the outbound stream no longer decodes: {:?}", ci, bw.conns[ci].out.error));
                         break;
                     }
+                    let pa: Vec<Vec<u8>> = if no_room { pa.iter().filter(|p| p.first() != Some(&0xE0)).cloned().collect() } else { pa.clone() };
+                    let pa = &pa;
                     let mut it = pb.iter();
                     if let Some(miss) = pa.iter().find(|x| !it.any(|y| y == *x)) {
                         bad = Some(format!("conn {}: {} of the uncancelled run is missing or out of order", ci, describe(miss)));
@@ -612,6 +622,27 @@ impl Check for C13 {
                     format!("C13/{}/{}", kind, what)
                 };
                 out.violations.push(viol("C13", sig, format!("request {} cancelled at await {:?}: {}", kind, cancels, msg)));
+            } else if kind != "disconnect" {
+                // same wire, same deliveries: then both sessions also stand at the same point once
+                // they went idle - nothing is left half-sent or queued in one of them only
+                let idle_end = |l: &RunLog| {
+                    let last = l.ops.last()?;
+                    if !(last.kind == "poll" && last.outcome == Outcome::CallerTimeout) {
+                        return None;
+                    }
+                    let sn = last.snap_after.as_ref()?;
+                    Some((
+                        sn.tx.retained.iter().map(|e| (e.packet_id, format!("{:?}", e.state))).collect::<Vec<_>>(),
+                        sn.tx.release.iter().map(|e| (e.packet_id, format!("{:?}", e.state))).collect::<Vec<_>>(),
+                        sn.tx.control.iter().map(|e| (e.kind, e.packet_id, format!("{:?}", e.state))).collect::<Vec<_>>(),
+                    ))
+                };
+                if let (Some(ea), Some(eb)) = (idle_end(&alog), idle_end(&blog)) {
+                    out.count("idle_end_states_compared", 1);
+                    if ea != eb {
+                        out.violations.push(viol("C13", format!("C13/{}/idle-end-state-differs", kind), format!("request {} cancelled at await {:?}: same packets and deliveries, but once idle the uncancelled run holds retained {:?} release {:?} control {:?} and the cancelled one retained {:?} release {:?} control {:?}", kind, cancels, ea.0, ea.1, ea.2, eb.0, eb.1, eb.2)));
+                    }
+                }
             }
             if really_cancelled {
                 out.nontrivial.push(hash_of(&(abstract_trace(&blog, &bw), j)));
